@@ -4,6 +4,8 @@ import parglare
 import parglare.glr as GL
 from parglare.parser import Token
 
+import collections
+
 from pgverif import cfg, glrobs, pgx
 from pgverif.mon.gss import GssMonitor
 from pgverif.mon.lr import Diverged, LRMonitor
@@ -37,6 +39,10 @@ def plan(tier):
 def required(tier):
     return {
         "config.consume_input_off": 3000,
+        "inputs.long_multiply_corrupted": 1000,
+        "errors.multiple": 2000,
+        "glr.hot_inputs_varied": 30,
+        "glr.recovery_event.second_error_before_any_shift_after_partial_kill": 100,
         "nontrivial": 3000 if tier == "quick" else 30000,
         "lr.recoveries": 5000,
         "glr.recoveries": 5000,
@@ -65,17 +71,47 @@ class GlrRecoveryMonitor:
         self.limit = None
         mon = self
 
+        self.orig_shifts = GL.GLRParser._do_shifts
+        self.ev = collections.Counter()
+        self.shifted = True
+        self.hot = False
+        self.partial = False
+
         def rec(self):
             mon.count += 1
             mon.total += 1
             if mon.limit is not None and mon.count > mon.limit:
                 raise pgx.BudgetExceeded("GLR error recovery entered %d times on an input of length %d" % (mon.count, len(self._last_shifted_heads[0].input_str) if self._last_shifted_heads else -1))
-            return mon.orig(self)
+            # which situations of the mechanism are reached (coverage, and selection of inputs worth varying)
+            nheads = len(self._last_shifted_heads)
+            if nheads >= 2:
+                mon.ev["recovery_over_several_heads"] += 1
+            if mon.count > 1 and not mon.shifted:
+                mon.ev["second_error_before_any_shift"] += 1
+                if mon.partial:
+                    mon.ev["second_error_before_any_shift_after_partial_kill"] += 1
+                    mon.hot = True
+            mon.partial = False
+            mon.shifted = False
+            r = mon.orig(self)
+            alive = len(self._active_heads)
+            if nheads >= 2 and 0 < alive < nheads:
+                mon.ev["recovery_kills_some_heads_only"] += 1
+                mon.partial = True
+            return r
+
+        def shifts(self):
+            r = mon.orig_shifts(self)
+            if self._active_heads:
+                mon.shifted = True
+            return r
 
         GL.GLRParser._do_error_recovery = rec
+        GL.GLRParser._do_shifts = shifts
 
     def uninstall(self):
         GL.GLRParser._do_error_recovery = self.orig
+        GL.GLRParser._do_shifts = self.orig_shifts
 
 
 def strategies(pg):
@@ -135,6 +171,8 @@ def run(ctx):
         rmon.uninstall()
     ctx.count("lr.recoveries", lmon.c["recoveries"])
     ctx.count("glr.recoveries", rmon.total)
+    for k, v in rmon.ev.items():
+        ctx.count("glr.recovery_event." + k, v)
 
 
 def one_grammar(ctx, lmon, rmon, g, alphabet, maxlen):
@@ -156,9 +194,23 @@ def one_grammar(ctx, lmon, rmon, g, alphabet, maxlen):
             inputs.add(c)
     for _ in range(10):
         inputs.add("".join(rng.choice(alphabet + JUNK) for _ in range(rng.randint(0, maxlen + 2))))
+    # longer sentences with several corruptions: more than one recovery in one parse
+    if not glrwork.has_overlap(g):
+        for target in (6, 8, 10, 12):
+            sent = cfg.rand_sentence(g, rng, target)
+            if not sent or len(sent) < 5 or len(sent) > 30:
+                continue
+            w = "".join(sent)
+            for _ in range(4):
+                c = w
+                for _ in range(rng.randint(1, 3)):
+                    c = rng.choice(corruptions(rng, c, alphabet))
+                inputs.add(c)
+                ctx.count("inputs.long_multiply_corrupted")
     inputs = sorted(inputs)
-    if len(inputs) > 80:
-        inputs = rng.sample(inputs, 80)
+    if len(inputs) > 90:
+        long_ones = [x for x in inputs if len(x) >= 6]
+        inputs = rng.sample(inputs, 70) + rng.sample(long_ones, min(20, len(long_ones)))
     if comments:
         def spoil(t):
             # corrupt inside / around comments: lose a terminator, inject junk
@@ -201,6 +253,16 @@ def one_grammar(ctx, lmon, rmon, g, alphabet, maxlen):
             for inp in inputs:
                 sstate["inj"] = 0
                 check(ctx, lmon, rmon, g, pg, pkeys, parser, plain, kind, sname, det, dict(case0, parser=kind, strategy=sname, input=inp, prefix_mode=prefix_mode), inp)
+                if kind == "GLR" and rmon.hot:
+                    # monitor-guided: this parse erred again before shifting anything after a recovery
+                    # that killed only some heads; explore its neighbourhood (more input behind it)
+                    ctx.count("glr.hot_inputs_varied")
+                    for _ in range(14):
+                        tail = "".join(rng.choice(alphabet + alphabet + JUNK) for _ in range(rng.randint(1, 4)))
+                        k = rng.randrange(len(inp) + 1)
+                        inp2 = inp + tail if rng.random() < 0.6 else inp[:k] + tail + inp[k:]
+                        sstate["inj"] = 0
+                        check(ctx, lmon, rmon, g, pg, pkeys, parser, plain, kind, sname, det, dict(case0, parser=kind, strategy=sname, input=inp2, prefix_mode=prefix_mode), inp2)
 
 
 def check(ctx, lmon, rmon, g, pg, pkeys, parser, plain, kind, sname, det, case, inp):
@@ -209,6 +271,9 @@ def check(ctx, lmon, rmon, g, pg, pkeys, parser, plain, kind, sname, det, case, 
         ctx.count("config.consume_input_off")
     rec_before = lmon.c["recoveries"] + rmon.total
     rmon.count = 0
+    rmon.shifted = True
+    rmon.hot = False
+    rmon.partial = False
     rmon.limit = 10 * (len(inp) + 2)
     lmon.check_stall = sname != "inject"
     try:
